@@ -212,7 +212,8 @@ def free_line(draw):
 def case_st():
     base = st.one_of(accept_gemini(), accept_gemini(), accept_titan(), reject_line(), reject_line(), free_line())
     # how the line reaches the server: one read, CR | LF, or a cut at a fraction of the line
-    return st.tuples(base, st.sampled_from([None, None, "crlf", 0.1, 0.5, 0.9, 0.999])).map(lambda t: {**t[0], "cut": t[1]})
+    # "eof": the line arrives without its CRLF and the peer then ends its side of the connection (FIN / close_notify)
+    return st.tuples(base, st.sampled_from([None, None, "crlf", 0.1, 0.5, 0.9, 0.999, "eof"])).map(lambda t: {**t[0], "cut": t[1]})
 
 
 # --------------------------------------------------------------------------
@@ -243,6 +244,12 @@ def run_line(case: dict):
         elif isinstance(cut, float):
             k = max(1, min(len(data) - 1, int(len(raw) * cut)))
             chunks = [data[:k], data[k:]] if len(data) > 1 else [data]
+        if cut == "eof" and case["cls"] == "accept":
+            tr.feed(raw)
+            await vloop.settle(5)
+            tr.peer_disconnect(None)  # graceful end of stream: the protocol's eof_received() is consulted, as asyncio does
+            await vloop.settle(5)
+            return sim, tr
         if case.get("followup"):
             # a well-formed request in a *separate* read right after the refused one (second TLS record of the same segment)
             tr.feed(data)
@@ -290,10 +297,15 @@ def judge(case, raw, log, tr):
     ucalls = [e for e in log if e[0] == "upload"]
     mcalls = [e for e in log if e[0] == "mw-enter"]
     info = {"S": b2s(S[:80]), "h": len(hcalls), "u": len(ucalls), "m": len(mcalls)}
+    cls = case["cls"]
+    if cls == "accept" and case.get("cut") == "eof" and "backend" not in case:
+        # a URL that never got its CRLF is no request: the stream ended first
+        if hcalls or ucalls or mcalls:
+            return viol("invalid-request-reached-handler", f"unterminated line then end of stream: {raw[:120]!r} h={len(hcalls)} u={len(ucalls)} mw={len(mcalls)}", **info)
+        return ok(**info)
     if isinstance(wf, str):
         return viol("not-well-formed:" + wf, f"{S[:100]!r}", **info)
     status = wf[0]
-    cls = case["cls"]
     if cls == "accept":
         if case["kind"] == "gemini":
             if len(hcalls) != 1 or ucalls:
